@@ -180,7 +180,9 @@ var vrC06Leaf CellID
 
 func vrstub_C06_cellIDFromPoint(p Point) CellID { return vrC06Leaf }
 
-func Harness_C06_locate_point() {
+func Harness_C06_locate_point() { vrLocatePointBody() }
+
+func vrLocatePointBody() {
 	vr.Stub("cellIDFromPoint", "vrstub_C06_cellIDFromPoint")
 	n := vr.Choose("n", 0, 3)
 	idx := vrIndexWithCells(n)
